@@ -102,8 +102,62 @@ func symFree(fn *ssa.Function) []Val {
 // entered, even if it returns an SDF).
 func (ev *Evaluator) evalRoot(fn *ssa.Function) (Val, State) {
 	st := State{mem: map[*Obj]Val{}}
-	r := ev.Call(fn, symArgs(fn), symFree(fn), &st)
+	free := symFree(fn)
+	ev.bindLiteralCells(fn, free, &st)
+	r := ev.Call(fn, symArgs(fn), free, &st)
 	return r, st
+}
+
+// bindLiteralCells: a function literal evaluated as a root (the body of a goroutine, say) may
+// capture a local of its parent that holds another function literal (`index := func(..) ..`
+// defined before `go func() { .. index(x) .. }()`). Left symbolic, a call through it is opaque;
+// when the captured cell is assigned exactly once, with a literal, the cell is given that
+// literal as its content (the literal's own captures stay symbolic).
+func (ev *Evaluator) bindLiteralCells(fn *ssa.Function, free []Val, st *State) {
+	parent := fn.Parent()
+	if parent == nil || len(fn.FreeVars) == 0 {
+		return
+	}
+	var mc *ssa.MakeClosure
+	n := 0
+	allInstrs(parent, func(_ *ssa.BasicBlock, ins ssa.Instruction) {
+		if m, ok := ins.(*ssa.MakeClosure); ok && m.Fn == ssa.Value(fn) {
+			mc = m
+			n++
+		}
+	})
+	if mc == nil || n != 1 || len(mc.Bindings) != len(fn.FreeVars) {
+		return
+	}
+	for i, b := range mc.Bindings {
+		cell, ok := b.(*ssa.Alloc)
+		if !ok || cell.Referrers() == nil {
+			continue
+		}
+		var lit *ssa.MakeClosure
+		stores := 0
+		for _, ref := range *cell.Referrers() {
+			if s, ok := ref.(*ssa.Store); ok && s.Addr == ssa.Value(cell) {
+				stores++
+				lit, _ = s.Val.(*ssa.MakeClosure)
+			}
+		}
+		if stores != 1 || lit == nil {
+			continue
+		}
+		lf, ok := lit.Fn.(*ssa.Function)
+		if !ok || lf == fn {
+			continue
+		}
+		fv := &FuncV{Fn: lf}
+		for k, lb := range lit.Bindings {
+			name := lf.FreeVars[k].Name()
+			fv.Free = append(fv.Free, symVal(name, lb.Type()))
+		}
+		o := ev.newObj(fn.FreeVars[i].Name(), false)
+		st.mem[o] = fv
+		free[i] = &Ptr{Obj: o}
+	}
 }
 
 // evalRootWith is evalRoot with some parameters fixed to integer constants (by name): loops
